@@ -155,7 +155,15 @@ struct Case {
 
 impl Case {
     fn text(&self) -> String {
-        let mut s = format!("{}.t{}", if self.kind == KIND_STUB { "stub" } else { "kalman" }, self.timer);
+        let mut s = format!(
+            "{}.t{}",
+            if self.kind == KIND_STUB {
+                "stub"
+            } else {
+                "kalman"
+            },
+            self.timer
+        );
         for (i, src) in self.srcs.iter().enumerate() {
             s.push('|');
             s.push((b'A' + i as u8) as char);
@@ -180,7 +188,10 @@ impl Case {
         for p in parts {
             let (head, script) = p.split_once(':')?;
             let oneway = head.ends_with('1');
-            let script = script.chars().map(Op::from_ch).collect::<Option<Vec<_>>>()?;
+            let script = script
+                .chars()
+                .map(Op::from_ch)
+                .collect::<Option<Vec<_>>>()?;
             srcs.push(Src { oneway, script });
         }
         Some(Case { kind, timer, srcs })
@@ -200,19 +211,57 @@ enum Ev {
     // --- harness markers
     Step(Choice),
     Drain,
-    Issue { src: u8, op: Op },
-    Mirror { used: Vec<u64> },
+    Issue {
+        src: u8,
+        op: Op,
+    },
+    Mirror {
+        used: Vec<u64>,
+    },
     // --- observed at the InternalTimeSyncController / InternalSourceController seam
-    Add { id: u64, oneway: bool },
-    Produced { id: u64, tag: u32 },
-    Msg { id: u64, tag: u32, call: u32, used: Option<Vec<u64>>, steer: bool, next_ms: Option<u64> },
-    Usable { id: u64, usable: bool },
-    Remove { id: u64 },
-    Timer { call: u32, used: Option<Vec<u64>>, steer: bool, next_ms: Option<u64> },
-    Fan { src: u64, call: u32 },
+    Add {
+        id: u64,
+        oneway: bool,
+    },
+    Produced {
+        id: u64,
+        tag: u32,
+    },
+    Msg {
+        id: u64,
+        tag: u32,
+        call: u32,
+        used: Option<Vec<u64>>,
+        steer: bool,
+        next_ms: Option<u64>,
+    },
+    Usable {
+        id: u64,
+        usable: bool,
+    },
+    Remove {
+        id: u64,
+    },
+    Timer {
+        call: u32,
+        used: Option<Vec<u64>>,
+        steer: bool,
+        next_ms: Option<u64>,
+    },
+    Fan {
+        src: u64,
+        call: u32,
+    },
     // kind: 1 set_frequency 2 step_clock 3 disable_ntp_algorithm 4 error_estimate 5 status
-    Clock { kind: u8, a: u64, b: u64 },
-    Stale { id: u64, what: String },
+    Clock {
+        kind: u8,
+        a: u64,
+        b: u64,
+    },
+    Stale {
+        id: u64,
+        what: String,
+    },
 }
 
 thread_local! {
@@ -271,26 +320,50 @@ impl NtpClock for MockClock {
         Ok(clock_now())
     }
     fn set_frequency(&self, freq: f64) -> Result<NtpTimestamp, Self::Error> {
-        log(Ev::Clock { kind: 1, a: freq.to_bits(), b: 0 });
+        log(Ev::Clock {
+            kind: 1,
+            a: freq.to_bits(),
+            b: 0,
+        });
         Ok(clock_now())
     }
     fn get_frequency(&self) -> Result<f64, Self::Error> {
         Ok(0.0)
     }
     fn step_clock(&self, offset: NtpDuration) -> Result<NtpTimestamp, Self::Error> {
-        log(Ev::Clock { kind: 2, a: offset.to_seconds().to_bits(), b: 0 });
+        log(Ev::Clock {
+            kind: 2,
+            a: offset.to_seconds().to_bits(),
+            b: 0,
+        });
         Ok(clock_now())
     }
     fn disable_ntp_algorithm(&self) -> Result<(), Self::Error> {
-        log(Ev::Clock { kind: 3, a: 0, b: 0 });
+        log(Ev::Clock {
+            kind: 3,
+            a: 0,
+            b: 0,
+        });
         Ok(())
     }
-    fn error_estimate_update(&self, est_error: NtpDuration, max_error: NtpDuration) -> Result<(), Self::Error> {
-        log(Ev::Clock { kind: 4, a: est_error.to_seconds().to_bits(), b: max_error.to_seconds().to_bits() });
+    fn error_estimate_update(
+        &self,
+        est_error: NtpDuration,
+        max_error: NtpDuration,
+    ) -> Result<(), Self::Error> {
+        log(Ev::Clock {
+            kind: 4,
+            a: est_error.to_seconds().to_bits(),
+            b: max_error.to_seconds().to_bits(),
+        });
         Ok(())
     }
     fn status_update(&self, leap_status: NtpLeapIndicator) -> Result<(), Self::Error> {
-        log(Ev::Clock { kind: 5, a: leap_status as u64, b: 0 });
+        log(Ev::Clock {
+            kind: 5,
+            a: leap_status as u64,
+            b: 0,
+        });
         Ok(())
     }
 }
@@ -335,7 +408,10 @@ impl<S: InternalSourceController> InternalSourceController for RecSrc<S> {
     type MeasurementDelay = S::MeasurementDelay;
 
     fn handle_message(&mut self, message: Self::ControllerMessage) {
-        log(Ev::Fan { src: self.id, call: message.tag });
+        log(Ev::Fan {
+            src: self.id,
+            call: message.tag,
+        });
         self.inner.handle_message(message.inner);
     }
 
@@ -392,16 +468,30 @@ where
         synchronization_config: SynchronizationConfig,
         algorithm_config: Self::AlgorithmConfig,
     ) -> Result<Self, std::io::Error> {
-        Ok(Rec { inner: T::new(clock, synchronization_config, algorithm_config)?, last: Vec::new() })
+        Ok(Rec {
+            inner: T::new(clock, synchronization_config, algorithm_config)?,
+            last: Vec::new(),
+        })
     }
 
     fn take_control(&mut self) -> Result<(), std::io::Error> {
         self.inner.take_control()
     }
 
-    fn add_source(&mut self, id: ClockId, source_config: SourceConfig) -> Self::NtpSourceController {
-        log(Ev::Add { id: id.0, oneway: false });
-        RecSrc { id: id.0, produced: 0, inner: self.inner.add_source(id, source_config) }
+    fn add_source(
+        &mut self,
+        id: ClockId,
+        source_config: SourceConfig,
+    ) -> Self::NtpSourceController {
+        log(Ev::Add {
+            id: id.0,
+            oneway: false,
+        });
+        RecSrc {
+            id: id.0,
+            produced: 0,
+            inner: self.inner.add_source(id, source_config),
+        }
     }
 
     fn add_one_way_source(
@@ -412,7 +502,10 @@ where
         measurement_accuracy_estimate: f64,
         period: Option<f64>,
     ) -> Self::OneWaySourceController {
-        log(Ev::Add { id: id.0, oneway: true });
+        log(Ev::Add {
+            id: id.0,
+            oneway: true,
+        });
         RecSrc {
             id: id.0,
             produced: 0,
@@ -429,7 +522,12 @@ where
     fn remove_source(&mut self, id: ClockId) {
         log(Ev::Remove { id: id.0 });
         self.inner.remove_source(id);
-        let stale = self.last.iter().rev().find(|(i, _)| *i == id.0).map(|(_, m)| m.clone());
+        let stale = self
+            .last
+            .iter()
+            .rev()
+            .find(|(i, _)| *i == id.0)
+            .map(|(_, m)| m.clone());
         if let Some(what) = self.inner.stale_probe(id, stale) {
             log(Ev::Stale { id: id.0, what });
         }
@@ -513,8 +611,14 @@ impl InternalTimeSyncController for Stub {
     type NtpSourceController = StubSrc<NtpDuration>;
     type OneWaySourceController = StubSrc<()>;
 
-    fn new(_c: MockClock, _s: SynchronizationConfig, _a: AlgorithmConfig) -> Result<Self, std::io::Error> {
-        Ok(Stub { regs: BTreeMap::new() })
+    fn new(
+        _c: MockClock,
+        _s: SynchronizationConfig,
+        _a: AlgorithmConfig,
+    ) -> Result<Self, std::io::Error> {
+        Ok(Stub {
+            regs: BTreeMap::new(),
+        })
     }
     fn take_control(&mut self) -> Result<(), std::io::Error> {
         Ok(())
@@ -523,7 +627,14 @@ impl InternalTimeSyncController for Stub {
         self.regs.insert(id.0, false);
         StubSrc(PhantomData)
     }
-    fn add_one_way_source(&mut self, id: ClockId, _c: SourceConfig, _n: f64, _a: f64, _p: Option<f64>) -> StubSrc<()> {
+    fn add_one_way_source(
+        &mut self,
+        id: ClockId,
+        _c: SourceConfig,
+        _n: f64,
+        _a: f64,
+        _p: Option<f64>,
+    ) -> StubSrc<()> {
         self.regs.insert(id.0, false);
         StubSrc(PhantomData)
     }
@@ -539,12 +650,21 @@ impl InternalTimeSyncController for Stub {
         InternalStateUpdate {
             source_message: (flags & 1 != 0).then_some(1),
             time_snapshot: None,
-            used_sources: Some(self.regs.iter().filter(|(_, u)| **u).map(|(i, _)| ClockId(*i)).collect()),
+            used_sources: Some(
+                self.regs
+                    .iter()
+                    .filter(|(_, u)| **u)
+                    .map(|(i, _)| ClockId(*i))
+                    .collect(),
+            ),
             next_update: (flags & 2 != 0).then_some(Duration::from_secs(1)),
         }
     }
     fn time_update(&mut self) -> InternalStateUpdate<u8> {
-        InternalStateUpdate { source_message: Some(2), ..InternalStateUpdate::default() }
+        InternalStateUpdate {
+            source_message: Some(2),
+            ..InternalStateUpdate::default()
+        }
     }
 }
 
@@ -702,14 +822,20 @@ fn algo_config(kind: u8) -> AlgorithmConfig {
     if kind == KIND_KALMAN {
         // a one-way source's initial snapshot has a 1 s^2 variance; let it take part in
         // the selection without an 8-sample warm-up
-        AlgorithmConfig { maximum_source_uncertainty: 10.0, ..AlgorithmConfig::default() }
+        AlgorithmConfig {
+            maximum_source_uncertainty: 10.0,
+            ..AlgorithmConfig::default()
+        }
     } else {
         AlgorithmConfig::default()
     }
 }
 
 fn sync_config() -> SynchronizationConfig {
-    SynchronizationConfig { minimum_agreeing_sources: 1, ..SynchronizationConfig::default() }
+    SynchronizationConfig {
+        minimum_agreeing_sources: 1,
+        ..SynchronizationConfig::default()
+    }
 }
 
 /// What one poll of `run()` did, read off the trace.
@@ -730,7 +856,11 @@ struct SchedState {
 fn scan_poll(from: usize, st: &mut SchedState, now: tokio::time::Instant) -> PollScan {
     LOG.with(|l| {
         let l = l.borrow();
-        let mut r = PollScan { deliveries: 0, timers: 0, first_is_timer: None };
+        let mut r = PollScan {
+            deliveries: 0,
+            timers: 0,
+            first_is_timer: None,
+        };
         for ev in &l[from..] {
             match ev {
                 Ev::Msg { next_ms, .. } => {
@@ -768,9 +898,11 @@ where
     T: InternalTimeSyncController<Clock = MockClock, AlgorithmConfig = AlgorithmConfig> + Twin,
 {
     let n = case.srcs.len();
-    let ctrl: Wrapper<T> = <Wrapper<T> as TimeSyncController>::new(MockClock, sync_config(), algo_config(case.kind))
-        .map_err(|e| Abort::Machinery(format!("new: {e}")))?;
-    ctrl.take_control().map_err(|e| Abort::Machinery(format!("take_control: {e}")))?;
+    let ctrl: Wrapper<T> =
+        <Wrapper<T> as TimeSyncController>::new(MockClock, sync_config(), algo_config(case.kind))
+            .map_err(|e| Abort::Machinery(format!("new: {e}")))?;
+    ctrl.take_control()
+        .map_err(|e| Abort::Machinery(format!("take_control: {e}")))?;
     let mut handles: Vec<Option<Handle<T>>> = Vec::with_capacity(n);
     let mut pc = vec![0usize; n];
     let mut mcount = vec![0usize; n];
@@ -788,7 +920,13 @@ where
     if run.as_mut().poll(&mut cx).is_ready() {
         return Err(Abort::Machinery("run() returned".into()));
     }
-    let mut st = SchedState { q: 0, armed: false, expired: false, stalled: false, deadline: tokio::time::Instant::now() };
+    let mut st = SchedState {
+        q: 0,
+        armed: false,
+        expired: false,
+        stalled: false,
+        deadline: tokio::time::Instant::now(),
+    };
     let mut enabled: Vec<Choice> = Vec::with_capacity(8);
     let mut depth = 0usize;
     loop {
@@ -842,7 +980,12 @@ where
                 }
                 let sent = match op {
                     Op::R => 0,
-                    Op::M => LOG.with(|l| l.borrow()[from..].iter().filter(|e| matches!(e, Ev::Produced { .. })).count() as i32),
+                    Op::M => LOG.with(|l| {
+                        l.borrow()[from..]
+                            .iter()
+                            .filter(|e| matches!(e, Ev::Produced { .. }))
+                            .count() as i32
+                    }),
                     _ => 1,
                 };
                 if sent > 0 {
@@ -866,13 +1009,16 @@ where
                 let scan = scan_poll(from, &mut st, now);
                 st.q -= scan.deliveries;
                 match (c, scan.first_is_timer) {
-                    (Choice::Lt, Some(false)) | (Choice::Lm, Some(true)) => return Err(Abort::Retry(depth)),
+                    (Choice::Lt, Some(false)) | (Choice::Lm, Some(true)) => {
+                        return Err(Abort::Retry(depth));
+                    }
                     _ => {}
                 }
                 if scan.deliveries == 0 && scan.timers == 0 {
                     st.stalled = true;
                 }
-                let mut used: Vec<u64> = ctrl.synchronization_state().1.iter().map(|c| c.0).collect();
+                let mut used: Vec<u64> =
+                    ctrl.synchronization_state().1.iter().map(|c| c.0).collect();
                 used.sort_unstable();
                 log(Ev::Mirror { used });
             }
@@ -930,7 +1076,15 @@ fn execute(rt: &tokio::runtime::Runtime, case: &Case, drv: &mut dyn Driver) -> E
         let log = LOG.with(|l| std::mem::take(&mut *l.borrow_mut()));
         let steps = log.iter().filter(|e| matches!(e, Ev::Step(_))).count();
         match r {
-            Ok(Ok(())) => return Exec { log, retries, error: None, panic: None, steps },
+            Ok(Ok(())) => {
+                return Exec {
+                    log,
+                    retries,
+                    error: None,
+                    panic: None,
+                    steps,
+                };
+            }
             Ok(Err(Abort::Retry(d))) => {
                 retries += 1;
                 // a coin that can fall both ways fails 64 times in a row at the same step
@@ -942,12 +1096,42 @@ fn execute(rt: &tokio::runtime::Runtime, case: &Case, drv: &mut dyn Driver) -> E
                     fail_count += 1;
                 }
                 if fail_count > 64 || retries > 1_000_000 {
-                    return Exec { log, retries, error: Some(format!("select! branch never taken at step {d}")), panic: None, steps };
+                    return Exec {
+                        log,
+                        retries,
+                        error: Some(format!("select! branch never taken at step {d}")),
+                        panic: None,
+                        steps,
+                    };
                 }
             }
-            Ok(Err(Abort::Driver(e))) => return Exec { log, retries, error: Some(format!("driver: {e}")), panic: None, steps },
-            Ok(Err(Abort::Machinery(e))) => return Exec { log, retries, error: Some(format!("machinery: {e}")), panic: None, steps },
-            Err(p) => return Exec { log, retries, error: None, panic: Some(p), steps },
+            Ok(Err(Abort::Driver(e))) => {
+                return Exec {
+                    log,
+                    retries,
+                    error: Some(format!("driver: {e}")),
+                    panic: None,
+                    steps,
+                };
+            }
+            Ok(Err(Abort::Machinery(e))) => {
+                return Exec {
+                    log,
+                    retries,
+                    error: Some(format!("machinery: {e}")),
+                    panic: None,
+                    steps,
+                };
+            }
+            Err(p) => {
+                return Exec {
+                    log,
+                    retries,
+                    error: None,
+                    panic: Some(p),
+                    steps,
+                };
+            }
         }
     }
 }
@@ -1157,8 +1341,22 @@ fn judge(case: &Case, log: &[Ev]) -> Verdict {
         }
         // used-set oracle + fan-out bookkeeping for controller answers
         let (used, steer, call, what) = match ev {
-            Ev::Msg { used, steer, call, id, tag, .. } => (used, *steer, *call, format!("measurement #{tag} of source {id}")),
-            Ev::Timer { used, steer, call, .. } => (used, *steer, *call, "timer expiry".to_string()),
+            Ev::Msg {
+                used,
+                steer,
+                call,
+                id,
+                tag,
+                ..
+            } => (
+                used,
+                *steer,
+                *call,
+                format!("measurement #{tag} of source {id}"),
+            ),
+            Ev::Timer {
+                used, steer, call, ..
+            } => (used, *steer, *call, "timer expiry".to_string()),
             _ => continue,
         };
         if let Some(u) = used {
@@ -1179,7 +1377,10 @@ fn judge(case: &Case, log: &[Ev]) -> Verdict {
                 }
             }
             // did the registered/usable filter exclude a source that has data?
-            if has_data.iter().any(|x| !(lin_reg.contains(x) && lin_usable.get(x) == Some(&true))) {
+            if has_data
+                .iter()
+                .any(|x| !(lin_reg.contains(x) && lin_usable.get(x) == Some(&true)))
+            {
                 v.filter_mattered += 1;
             }
         }
@@ -1204,9 +1405,21 @@ fn outcome_hash(case_hash: u64, log: &[Ev]) -> u64 {
     let mut acc: Vec<u64> = vec![case_hash];
     for ev in log {
         match ev {
-            Ev::Msg { id, tag, used, steer, next_ms, .. } => {
-                acc.push(common::hash_of(&(1u8, id, tag, used, steer, next_ms.is_some())))
-            }
+            Ev::Msg {
+                id,
+                tag,
+                used,
+                steer,
+                next_ms,
+                ..
+            } => acc.push(common::hash_of(&(
+                1u8,
+                id,
+                tag,
+                used,
+                steer,
+                next_ms.is_some(),
+            ))),
             Ev::Usable { id, usable } => acc.push(common::hash_of(&(2u8, id, usable))),
             Ev::Remove { id } => acc.push(common::hash_of(&(3u8, id))),
             Ev::Timer { used, steer, .. } => acc.push(common::hash_of(&(4u8, used, steer))),
@@ -1230,14 +1443,34 @@ fn render(log: &[Ev]) -> String {
             Ev::Mirror { used } => format!("state={used:?}"),
             Ev::Add { id, oneway } => format!("add({id}{})", if *oneway { ",1w" } else { "" }),
             Ev::Produced { id, tag } => format!("send(m{tag}@{id})"),
-            Ev::Msg { id, tag, used, steer, next_ms, .. } => {
-                format!("source_message({id},m{tag})->used={used:?},steer={steer},timer={}", next_ms.is_some())
+            Ev::Msg {
+                id,
+                tag,
+                used,
+                steer,
+                next_ms,
+                ..
+            } => {
+                format!(
+                    "source_message({id},m{tag})->used={used:?},steer={steer},timer={}",
+                    next_ms.is_some()
+                )
             }
             Ev::Usable { id, usable } => format!("source_update({id},{usable})"),
             Ev::Remove { id } => format!("remove_source({id})"),
             Ev::Timer { used, steer, .. } => format!("time_update()->used={used:?},steer={steer}"),
             Ev::Fan { src, call } => format!("steer#{call}->{src}"),
-            Ev::Clock { kind, .. } => format!("clock.{}", ["?", "set_frequency", "step_clock", "disable_ntp_algorithm", "error_estimate_update", "status_update"][*kind as usize % 6]),
+            Ev::Clock { kind, .. } => format!(
+                "clock.{}",
+                [
+                    "?",
+                    "set_frequency",
+                    "step_clock",
+                    "disable_ntp_algorithm",
+                    "error_estimate_update",
+                    "status_update"
+                ][*kind as usize % 6]
+            ),
             Ev::Stale { id, what } => format!("STALE({id}:{what})"),
         };
         if !s.is_empty() {
@@ -1290,7 +1523,12 @@ impl Driver for Dfs {
 
 impl Dfs {
     fn new(prefix: &[u8]) -> Dfs {
-        Dfs { path: prefix.to_vec(), widths: Vec::new(), fixed: prefix.len(), taken: Vec::new() }
+        Dfs {
+            path: prefix.to_vec(),
+            widths: Vec::new(),
+            fixed: prefix.len(),
+            taken: Vec::new(),
+        }
     }
     /// advance to the next schedule in DFS order; returns the depth of the branching
     /// point (number of shared leading choices), or None when exhausted
@@ -1309,7 +1547,11 @@ impl Dfs {
         None
     }
     fn schedule_text(&self) -> String {
-        self.taken.iter().map(|c| c.token()).collect::<Vec<_>>().join(",")
+        self.taken
+            .iter()
+            .map(|c| c.token())
+            .collect::<Vec<_>>()
+            .join(",")
     }
 }
 
@@ -1344,7 +1586,13 @@ struct Tally {
     v: Verdict,
 }
 
-fn explore_item(ctx: &Ctx, rt: &tokio::runtime::Runtime, case: &Case, prefix: &[u8], tally: &mut Tally) {
+fn explore_item(
+    ctx: &Ctx,
+    rt: &tokio::runtime::Runtime,
+    case: &Case,
+    prefix: &[u8],
+    tally: &mut Tally,
+) {
     let mut dfs = Dfs::new(prefix);
     let case_hash = common::hash_of(case);
     let mut shared = 0usize;
@@ -1369,11 +1617,23 @@ fn explore_item(ctx: &Ctx, rt: &tokio::runtime::Runtime, case: &Case, prefix: &[
                     None => break,
                 }
             }
-            ctx.violation("C37:machinery", format!("{e}"), format!("{};{}", case.text(), dfs.schedule_text()));
+            ctx.violation(
+                "C37:machinery",
+                format!("{e}"),
+                format!("{};{}", case.text(), dfs.schedule_text()),
+            );
             return;
         }
-        if dfs.widths.len() < dfs.fixed || dfs.widths[..dfs.fixed].iter().any(|w| *w as usize > SPLIT_RADIX) {
-            ctx.violation("C37:machinery", "partition prefix longer than a schedule / radix too small".to_string(), format!("{};{}", case.text(), dfs.schedule_text()));
+        if dfs.widths.len() < dfs.fixed
+            || dfs.widths[..dfs.fixed]
+                .iter()
+                .any(|w| *w as usize > SPLIT_RADIX)
+        {
+            ctx.violation(
+                "C37:machinery",
+                "partition prefix longer than a schedule / radix too small".to_string(),
+                format!("{};{}", case.text(), dfs.schedule_text()),
+            );
             return;
         }
         let trace = || format!("{};{}", case.text(), dfs.schedule_text());
@@ -1383,7 +1643,11 @@ fn explore_item(ctx: &Ctx, rt: &tokio::runtime::Runtime, case: &Case, prefix: &[
         tally.nodes += (ex.steps.saturating_sub(shared)) as u64;
         tally.max_len = tally.max_len.max(ex.steps as u64);
         if let Some(p) = &ex.panic {
-            ctx.violation("C37:panic", format!("code under test panicked (would abort the daemon): {p}"), trace());
+            ctx.violation(
+                "C37:panic",
+                format!("code under test panicked (would abort the daemon): {p}"),
+                trace(),
+            );
         } else {
             let verdict = judge(case, &ex.log);
             for (class, what) in &verdict.violations {
@@ -1451,7 +1715,10 @@ struct Phase {
 
 fn src(i: usize, script: Vec<Op>) -> Src {
     // A and C are two-way (NTP) sources, B is a one-way (sock / PPS style) source
-    Src { oneway: i == 1, script }
+    Src {
+        oneway: i == 1,
+        script,
+    }
 }
 
 fn phases(quick: bool) -> Vec<Phase> {
@@ -1459,10 +1726,24 @@ fn phases(quick: bool) -> Vec<Phase> {
     let s3 = scripts(3);
     let s2 = scripts(2);
     let s1 = scripts(1);
-    let ne = |v: &Vec<Vec<Op>>| v.iter().filter(|s| !s.is_empty()).cloned().collect::<Vec<_>>();
+    let ne = |v: &Vec<Vec<Op>>| {
+        v.iter()
+            .filter(|s| !s.is_empty())
+            .cloned()
+            .collect::<Vec<_>>()
+    };
     // scripts that first report the source usable (the interesting ones for the real controller)
-    let u3: Vec<Vec<Op>> = s3.iter().filter(|s| s.first() == Some(&Op::Up)).cloned().collect();
-    let pairs = |kind: u8, timer: u8, sa: &Vec<Vec<Op>>, sb: &Vec<Vec<Op>>, late_b: bool, keep: &dyn Fn(&Vec<Op>, &Vec<Op>) -> bool| {
+    let u3: Vec<Vec<Op>> = s3
+        .iter()
+        .filter(|s| s.first() == Some(&Op::Up))
+        .cloned()
+        .collect();
+    let pairs = |kind: u8,
+                 timer: u8,
+                 sa: &Vec<Vec<Op>>,
+                 sb: &Vec<Vec<Op>>,
+                 late_b: bool,
+                 keep: &dyn Fn(&Vec<Op>, &Vec<Op>) -> bool| {
         let mut cases = Vec::new();
         for a in sa {
             for b in sb {
@@ -1470,7 +1751,11 @@ fn phases(quick: bool) -> Vec<Phase> {
                     continue;
                 }
                 let b2 = if late_b { with_r(b) } else { b.clone() };
-                cases.push(Case { kind, timer, srcs: vec![src(0, a.clone()), src(1, b2)] });
+                cases.push(Case {
+                    kind,
+                    timer,
+                    srcs: vec![src(0, a.clone()), src(1, b2)],
+                });
             }
         }
         cases
@@ -1480,7 +1765,11 @@ fn phases(quick: bool) -> Vec<Phase> {
         for a in ne(per) {
             for b in ne(per) {
                 for c in ne(per) {
-                    cases.push(Case { kind, timer, srcs: vec![src(0, a.clone()), src(1, b.clone()), src(2, c.clone())] });
+                    cases.push(Case {
+                        kind,
+                        timer,
+                        srcs: vec![src(0, a.clone()), src(1, b.clone()), src(2, c.clone())],
+                    });
                 }
             }
         }
@@ -1489,36 +1778,108 @@ fn phases(quick: bool) -> Vec<Phase> {
     let all = |_: &Vec<Op>, _: &Vec<Op>| true;
     // ---- both tiers (cheap phases first so that a loaded machine still reaches every kind)
     let le5 = |a: &Vec<Op>, b: &Vec<Op>| a.len() + b.len() <= 5;
-    ph.push(Phase { name: "kalman-2x2-t1", cases: pairs(KIND_KALMAN, 1, &s2, &s2, false, &all), split: 0 });
-    ph.push(Phase { name: "kalman-2x2-late-t1", cases: pairs(KIND_KALMAN, 1, &s2, &ne(&s2), true, &all), split: 0 });
-    ph.push(Phase { name: "kalman-3x1-t1", cases: triples(KIND_KALMAN, 1, &s1), split: 0 });
-    ph.push(Phase { name: "stub-3x1-t1", cases: triples(KIND_STUB, 1, &s1), split: 0 });
-    ph.push(Phase { name: "stub-2x2-t2", cases: pairs(KIND_STUB, 2, &s2, &s2, false, &all), split: 0 });
-    ph.push(Phase { name: "stub-2x2-late-t1", cases: pairs(KIND_STUB, 1, &s2, &ne(&s2), true, &all), split: 0 });
-    ph.push(Phase { name: "kalman-2xU3-t0", cases: pairs(KIND_KALMAN, 0, &u3, &u3, false, &all), split: 0 });
-    ph.push(Phase { name: "stub-2x3-t0", cases: pairs(KIND_STUB, 0, &s3, &s3, false, &all), split: 0 });
+    ph.push(Phase {
+        name: "kalman-2x2-t1",
+        cases: pairs(KIND_KALMAN, 1, &s2, &s2, false, &all),
+        split: 0,
+    });
+    ph.push(Phase {
+        name: "kalman-2x2-late-t1",
+        cases: pairs(KIND_KALMAN, 1, &s2, &ne(&s2), true, &all),
+        split: 0,
+    });
+    ph.push(Phase {
+        name: "kalman-3x1-t1",
+        cases: triples(KIND_KALMAN, 1, &s1),
+        split: 0,
+    });
+    ph.push(Phase {
+        name: "stub-3x1-t1",
+        cases: triples(KIND_STUB, 1, &s1),
+        split: 0,
+    });
+    ph.push(Phase {
+        name: "stub-2x2-t2",
+        cases: pairs(KIND_STUB, 2, &s2, &s2, false, &all),
+        split: 0,
+    });
+    ph.push(Phase {
+        name: "stub-2x2-late-t1",
+        cases: pairs(KIND_STUB, 1, &s2, &ne(&s2), true, &all),
+        split: 0,
+    });
+    ph.push(Phase {
+        name: "kalman-2xU3-t0",
+        cases: pairs(KIND_KALMAN, 0, &u3, &u3, false, &all),
+        split: 0,
+    });
+    ph.push(Phase {
+        name: "stub-2x3-t0",
+        cases: pairs(KIND_STUB, 0, &s3, &s3, false, &all),
+        split: 0,
+    });
     if !quick {
-        ph.push(Phase { name: "stub-2x3-late-t0", cases: pairs(KIND_STUB, 0, &s3, &ne(&s3), true, &all), split: 0 });
-        ph.push(Phase { name: "kalman-2x3-t0", cases: pairs(KIND_KALMAN, 0, &s3, &s3, false, &all), split: 0 });
+        ph.push(Phase {
+            name: "stub-2x3-late-t0",
+            cases: pairs(KIND_STUB, 0, &s3, &ne(&s3), true, &all),
+            split: 0,
+        });
+        ph.push(Phase {
+            name: "kalman-2x3-t0",
+            cases: pairs(KIND_KALMAN, 0, &s3, &s3, false, &all),
+            split: 0,
+        });
         ph.push(Phase {
             name: "kalman-2x3(<=5ops)-t1",
             cases: pairs(KIND_KALMAN, 1, &s3, &s3, false, &le5),
             split: 0,
         });
-        ph.push(Phase { name: "stub-3x2-t0", cases: triples(KIND_STUB, 0, &s2), split: 0 });
-        ph.push(Phase { name: "kalman-3x2-t0", cases: triples(KIND_KALMAN, 0, &s2), split: 0 });
+        ph.push(Phase {
+            name: "stub-3x2-t0",
+            cases: triples(KIND_STUB, 0, &s2),
+            split: 0,
+        });
+        ph.push(Phase {
+            name: "kalman-3x2-t0",
+            cases: triples(KIND_KALMAN, 0, &s2),
+            split: 0,
+        });
         // three sources with three operations each: conflict-rich script triples
-        let sel: [[&str; 3]; 4] = [["UMD", "UMu", "UMM"], ["MUM", "UMD", "uMD"], ["UMM", "UMD", "MUD"], ["UMu", "MMD", "UMD"]];
-        let sc = |s: &str| s.chars().map(|c| Op::from_ch(c).unwrap()).collect::<Vec<_>>();
-        for (kind, take, name) in [(KIND_STUB, 4usize, "stub-3x3-selected-t0"), (KIND_KALMAN, 2, "kalman-3x3-selected-t0")] {
+        let sel: [[&str; 3]; 4] = [
+            ["UMD", "UMu", "UMM"],
+            ["MUM", "UMD", "uMD"],
+            ["UMM", "UMD", "MUD"],
+            ["UMu", "MMD", "UMD"],
+        ];
+        let sc = |s: &str| {
+            s.chars()
+                .map(|c| Op::from_ch(c).unwrap())
+                .collect::<Vec<_>>()
+        };
+        for (kind, take, name) in [
+            (KIND_STUB, 4usize, "stub-3x3-selected-t0"),
+            (KIND_KALMAN, 2, "kalman-3x3-selected-t0"),
+        ] {
             let cases = sel[..take]
                 .iter()
-                .map(|t| Case { kind, timer: 0, srcs: vec![src(0, sc(t[0])), src(1, sc(t[1])), src(2, sc(t[2]))] })
+                .map(|t| Case {
+                    kind,
+                    timer: 0,
+                    srcs: vec![src(0, sc(t[0])), src(1, sc(t[1])), src(2, sc(t[2]))],
+                })
                 .collect();
-            ph.push(Phase { name, cases, split: 3 });
+            ph.push(Phase {
+                name,
+                cases,
+                split: 3,
+            });
         }
         // by far the most expensive phase (every select! coin doubles the re-executions): last
-        ph.push(Phase { name: "stub-2x3-t1", cases: pairs(KIND_STUB, 1, &s3, &s3, false, &all), split: 0 });
+        ph.push(Phase {
+            name: "stub-2x3-t1",
+            cases: pairs(KIND_STUB, 1, &s3, &s3, false, &all),
+            split: 0,
+        });
     }
     ph
 }
@@ -1534,7 +1895,11 @@ fn replay(ctx: &Ctx, trace: &str) -> String {
     let Some(case) = Case::parse(case_s) else {
         return "unparsable case".into();
     };
-    let choices: Option<Vec<Choice>> = if sched_s.is_empty() { Some(vec![]) } else { sched_s.split(',').map(Choice::parse).collect() };
+    let choices: Option<Vec<Choice>> = if sched_s.is_empty() {
+        Some(vec![])
+    } else {
+        sched_s.split(',').map(Choice::parse).collect()
+    };
     let Some(choices) = choices else {
         return "unparsable schedule".into();
     };
@@ -1594,7 +1959,10 @@ fn check() {
             }
         }
         if ctx.over_budget() {
-            ctx.cap_hit(&format!("phase {} not started; earlier phases complete", phase.name));
+            ctx.cap_hit(&format!(
+                "phase {} not started; earlier phases complete",
+                phase.name
+            ));
             capped = true;
             continue;
         }
@@ -1610,7 +1978,8 @@ fn check() {
                 }
             }
         }
-        let per_case_outcomes: std::sync::Mutex<BTreeMap<usize, HashSet<u64>>> = std::sync::Mutex::new(BTreeMap::new());
+        let per_case_outcomes: std::sync::Mutex<BTreeMap<usize, HashSet<u64>>> =
+            std::sync::Mutex::new(BTreeMap::new());
         let agg = std::sync::Mutex::new(Tally::default());
         common::par_for_with(items.len() as u64, 1, new_runtime, |rt, ix| {
             let (ci, prefix) = &items[ix as usize];
@@ -1621,10 +1990,20 @@ fn check() {
                 return;
             }
             if ix % 97 == 3 {
-                ctx.sample(format!("{}: {} schedules, {} distinct outcomes", case.text(), tally.schedules, tally.outcomes.len()));
+                ctx.sample(format!(
+                    "{}: {} schedules, {} distinct outcomes",
+                    case.text(),
+                    tally.schedules,
+                    tally.outcomes.len()
+                ));
             }
             ctx.distinct_many(tally.outcomes.iter().copied());
-            per_case_outcomes.lock().unwrap().entry(*ci).or_default().extend(tally.outcomes.iter().copied());
+            per_case_outcomes
+                .lock()
+                .unwrap()
+                .entry(*ci)
+                .or_default()
+                .extend(tally.outcomes.iter().copied());
             let mut a = agg.lock().unwrap();
             a.schedules += tally.schedules;
             a.nodes += tally.nodes;
@@ -1651,7 +2030,11 @@ fn check() {
         let multi = pco.values().filter(|s| s.len() > 1).count() as u64;
         let max_out = pco.values().map(|s| s.len()).max().unwrap_or(0) as u64;
         let outcomes: u64 = pco.values().map(|s| s.len() as u64).sum();
-        let pre = if phase.name.starts_with("kalman") { "kalman" } else { "stub" };
+        let pre = if phase.name.starts_with("kalman") {
+            "kalman"
+        } else {
+            "stub"
+        };
         ctx.add("cases", phase.cases.len() as u64);
         ctx.add("evaluations", a.schedules);
         ctx.add("schedules", a.schedules);
@@ -1661,13 +2044,25 @@ fn check() {
         ctx.add("pruned_infeasible_select_branches", a.infeasible);
         total_states += a.nodes;
         ctx.add("controller_calls_delivered", a.v.deliveries);
-        ctx.add(&format!("{pre}_updates_reporting_used_sources"), a.v.updates_with_used);
+        ctx.add(
+            &format!("{pre}_updates_reporting_used_sources"),
+            a.v.updates_with_used,
+        );
         for k in 0..4 {
-            ctx.add(&format!("{pre}_used_set_size_{}{}", k, if k == 3 { "+" } else { "" }), a.v.used_hist[k]);
+            ctx.add(
+                &format!("{pre}_used_set_size_{}{}", k, if k == 3 { "+" } else { "" }),
+                a.v.used_hist[k],
+            );
         }
-        ctx.add(&format!("{pre}_updates_where_filter_excluded_a_source_with_data"), a.v.filter_mattered);
+        ctx.add(
+            &format!("{pre}_updates_where_filter_excluded_a_source_with_data"),
+            a.v.filter_mattered,
+        );
         ctx.add("steering_fanouts", a.v.fanouts);
-        ctx.add("steering_deliveries_to_late_registered_source", a.v.late_fan);
+        ctx.add(
+            "steering_deliveries_to_late_registered_source",
+            a.v.late_fan,
+        );
         ctx.add("timer_expiries_handled", a.v.timers);
         ctx.add("steps_with_message_and_timer_both_ready", a.v.both_ready);
         ctx.add("removals_delivered", a.v.removes);
@@ -1676,7 +2071,14 @@ fn check() {
         ctx.add("outcomes_summed_over_cases", outcomes);
         ctx.max("max_outcomes_of_one_case", max_out);
         ctx.max("longest_schedule_steps", a.max_len);
-        eprintln!("C37 phase {}: {} cases, {} schedules, {} steps, {:.1}s", phase.name, phase.cases.len(), a.schedules, a.steps, t0.elapsed().as_secs_f64());
+        eprintln!(
+            "C37 phase {}: {} cases, {} schedules, {} steps, {:.1}s",
+            phase.name,
+            phase.cases.len(),
+            a.schedules,
+            a.steps,
+            t0.elapsed().as_secs_f64()
+        );
         ctx.note(
             &format!("phase_{}", phase.name),
             &format!(
@@ -1690,7 +2092,10 @@ fn check() {
         );
     }
     ctx.set("states", total_states);
-    ctx.note("bound", "complete: every schedule of every listed case (preemption bound = unbounded)");
+    ctx.note(
+        "bound",
+        "complete: every schedule of every listed case (preemption bound = unbounded)",
+    );
     ctx.exhaustive(ctx.get("schedules") > 0 && !capped);
     ctx.finish();
 }
